@@ -12,11 +12,12 @@ package kvstore
 
 //@ func (k *KVStore) Compaction() (bool, error)
 //@   props C12 C11
-//@   requires #shape: k != nil && k.tablesByCoefficient != nil && off(k.tables) == 0 && (forall i int {k.tables[i]} :: 0 <= i && i < len(k.tables) ==> k.tables[i] != nil && k.tables[i].inv())
+//@   requires #inv_in: k.inv() && k.tableSize <= 4611686018427387904 && off(k.tables) == 0
 //@   ensures #dropping_an_idle_table_keeps_live_tables_registered [C12 C11]: result.0 ==> forall c uint64 {c in k.tablesByCoefficient} ::
 //@                old(c in k.tablesByCoefficient) && old(k.tablesByCoefficient[c]) != nil && old(k.tablesByCoefficient[c].state) != table.RecycledState ==>
 //@                (c in k.tablesByCoefficient) && k.tablesByCoefficient[c] == old(k.tablesByCoefficient[c])
 //@   ensures #states_kept [C12 C11]: result.0 ==> forall t *table.Table {t.state} :: t.state == old(t.state)
+//@   loop 0 invariant #store_ok: k.inv()
 //@   loop 0 invariant #nothing_yet: len(k.tables) == old(len(k.tables)) && off(k.tables) == 0 && (forall i int {k.tables[i]} :: 0 <= i && i < len(k.tables) ==> k.tables[i] != nil && k.tables[i].inv()) &&
 //@                (forall c uint64 {c in k.tablesByCoefficient} :: (c in k.tablesByCoefficient) == old(c in k.tablesByCoefficient) && k.tablesByCoefficient[c] == old(k.tablesByCoefficient[c])) &&
 //@                (forall t *table.Table {t.state} :: t.state == old(t.state))
